@@ -53,7 +53,7 @@ theorem relabelData_dOf {s : Store} {o nw : Int} (h : (o, nw) ∈ (relabelSF s.f
     exact Or.inr ⟨(o, nw), h, rfl⟩
   simp [dOf, lookup_of_mem (relabelData_keys_nodup s) hm]
 
-theorem relabelNodes_inv {s : Store} (hw : WF s) : Inv s.relabelNodes ∧ Dense s.relabelNodes := by
+theorem relabelNodes_inv {s : Store} (hw : WF s) : Inv0 s.relabelNodes ∧ Dense s.relabelNodes := by
   refine ⟨⟨?_, ?_⟩, ?_⟩
   · rw [wf_iff, relabelNodes_forest, relabelNodes_data_eq, relabelNodes_nodeIdx, relabelNodes_nodeIdxRev]
     refine ⟨⟨relabelSF_names_nodup _ _, ?_, fun n' hn' => ?_, fun n' hn' => ?_⟩,
